@@ -135,4 +135,111 @@ MUTANTS = [
         );""", """        first_pdu.store(u16::from(value), Ordering::Release);""")]},
     {"id": "c01-neutral-log", "property": "C01", "neutral": True, "also": ["C02", "C03", "C06"],
      "edits": [("src/pdu_loop/frame_element/received_frame.rs", "        let payload_len = usize::from(pdu_header.flags.len());\n\n        // If buffer isn't long enough to hold payload and WKC, this is probably a corrupt PDU or\n        // someone is committing epic haxx.\n        if buf.len() < payload_len + 2 {\n            return Err(Error::Pdu(PduError::TooLong));\n        }\n\n        if pdu_header.command_code != handle.command_code {", "        let payload_len = usize::from(pdu_header.flags.len());\n        fmt::trace!(\"payload {}\", payload_len);\n\n        if buf.len() < payload_len + 2 {\n            return Err(Error::Pdu(PduError::TooLong));\n        }\n\n        if handle.command_code != pdu_header.command_code {")]},
+    # ---------------- C05 ----------------
+    {"id": "c05-index-direct", "property": "C05", "expect": "C05.np|PduRx::receive_frame",
+     "edits": [("src/pdu_loop/pdu_rx.rs", "let pdu_idx = *i.get(1).ok_or(Error::Internal)?;", "let pdu_idx = i[1];")]},
+    {"id": "c05-no-src-filter", "property": "C05", "expect": "C05.filter|own-source",
+     "edits": [("src/pdu_loop/pdu_rx.rs", "if raw_packet.ethertype() != ETHERCAT_ETHERTYPE || raw_packet.src_addr() == self.source_mac\n        {", "if raw_packet.ethertype() != ETHERCAT_ETHERTYPE {")]},
+    {"id": "c05-unchecked-ctor", "property": "C05", "expect": "C05",
+     "edits": [("src/pdu_loop/pdu_rx.rs", "let raw_packet = EthernetFrame::new_checked(ethernet_frame)?;", "let raw_packet = EthernetFrame::new_unchecked(ethernet_frame);")]},
+    {"id": "c05-payload-slice-direct", "property": "C05", "expect": "C05.np|PduRx::receive_frame",
+     "edits": [("src/pdu_loop/pdu_rx.rs", """        let i = i
+            .get(
+                EthercatFrameHeader::PACKED_LEN
+                    ..(EthercatFrameHeader::PACKED_LEN + usize::from(frame_header.payload_len)),
+            )
+            .ok_or_else(|| {
+                fmt::error!("Received frame is too short");
+
+                Error::ReceiveFrame
+            })?;""", """        let i = &i[EthercatFrameHeader::PACKED_LEN
+            ..(EthercatFrameHeader::PACKED_LEN + usize::from(frame_header.payload_len))];""")]},
+    {"id": "c05-claim-no-bounds", "property": "C05", "expect": "C05.claim|index-bounds",
+     "edits": [("src/pdu_loop/storage.rs", "        if frame_idx >= self.num_frames {\n            return None;\n        }\n", "")]},
+    # ---------------- C13 ----------------
+    {"id": "c13-unchecked-add2", "property": "C13", "expect": "C13",
+     "edits": [("src/subdevice/eeprom.rs", """            let Some(incr) = word_addr.checked_add(2) else {
+                fmt::warn!(
+                    "Could not find EEPROM category {:?} or end marker. EEPROM could be empty or corrupt.",
+                    category
+                );
+
+                break Ok(None);
+            };
+
+            word_addr = incr;""", """            word_addr += 2;""")]},
+    {"id": "c13-category-len-unchecked", "property": "C13", "expect": "C13",
+     "edits": [("src/subdevice/eeprom.rs", """            let Some(next) = word_addr.checked_add(len_words) else {
+                fmt::warn!(
+                    "EEPROM category {:?} length {:#06x} overruns the address space. EEPROM could be empty or corrupt.",
+                    category_type,
+                    len_words
+                );
+
+                break Ok(None);
+            };
+
+            word_addr = next;""", """            word_addr += len_words;""")]},
+    {"id": "c13-no-string-len-check", "property": "C13", "expect": "C13.np|SubDeviceEeprom::find_string",
+     "edits": [("src/subdevice/eeprom.rs", """            if string_len > N {
+                return Err(Error::StringTooLong {
+                    max_length: N,
+                    string_length: string_len,
+                });
+            }
+""", "")]},
+    {"id": "c13-size-u16", "property": "C13", "expect": "C13.np|SubDeviceEeprom::size",
+     "edits": [("src/subdevice/eeprom.rs", "let len = (usize::from(u16::from_le_bytes(buf)) + 1) * 128;\n\n        Ok(len)", "let len = (u16::from_le_bytes(buf) + 1) * 128;\n\n        Ok(usize::from(len))")]},
+    {"id": "c13-sm-len-unchecked", "property": "C13", "expect": "C13.np|configuration::configure_pdos_eeprom",
+     "edits": [("src/subdevice/configuration.rs", "let len = pdo.bit_len.checked_mul(oversampling);", "let len = Some(pdo.bit_len * oversampling);")]},
+    # ---------------- C16 ----------------
+    {"id": "c16-assert-emergency", "property": "C16", "expect": "C16.np|Coe::mailbox_write_read",
+     "edits": [("src/mailbox/coe/mod.rs", "        if headers.coe_header.service == CoeService::Emergency {", "        assert_ne!(headers.coe_header.service, CoeService::Emergency);\n\n        if headers.coe_header.service == CoeService::Emergency {")]},
+    {"id": "c16-sdo-info-length", "property": "C16", "expect": "C16.np|Coe::send_sdo_info_service",
+     "edits": [("src/mailbox/coe/mod.rs", "buf.extend_from_slice(response.get(..length).ok_or(Error::Internal)?)", "buf.extend_from_slice(&response[..length])")]},
+    {"id": "c16-segment-minus-3", "property": "C16", "expect": "C16.np|Coe::sdo_read",
+     "edits": [("src/mailbox/coe/mod.rs", "usize::from(headers.header.length.checked_sub(3).ok_or(Error::Internal)?);", "usize::from(headers.header.length - 3);")]},
+    {"id": "c16-expedited-index", "property": "C16", "expect": "C16.np|Coe::sdo_read",
+     "edits": [("src/mailbox/coe/mod.rs", "data.get(0..data_len).ok_or(Error::Internal)?\n        }", "&data[0..data_len]\n        }")]},
+    {"id": "c16-trim-unclamped", "property": "C16", "expect": "C16", "also": ["C01"],
+     "edits": [("src/pdu_loop/frame_element/received_frame.rs", "        let ct = ct.min(self.len());\n", "")]},
+    # ---------------- C17 ----------------
+    {"id": "c17-no-free-port-unwrap", "property": "C17", "expect": "C17.np|dc::assign_parent_relationships",
+     "edits": [("src/dc.rs", """                .ok_or_else(|| {
+                    fmt::error!(
+                        "No free ports on parent of SubDevice {:#06x}",
+                        subdevice.configured_address()
+                    );
+
+                    Error::Topology
+                })?;""", """                .unwrap();""")]},
+    {"id": "c17-sum-overflow", "property": "C17", "expect": "C17.np|Ports::intermediate_propagation_time_to",
+     "edits": [("src/subdevice/ports.rs", ".fold(0u32, |total, delta| total.saturating_add(delta))", ".sum::<u32>()")]},
+    {"id": "c17-no-open-port-check", "property": "C17", "expect": "C17.np|guard-broken|ports_nonempty",
+     "edits": [("src/subdevice/mod.rs", "        if !ports.0.iter().any(|port| port.active) {", "        if false {")]},
+    {"id": "c17-delay-not-monotone", "property": "C17", "expect": "C17.acc",
+     "edits": [("src/dc.rs", "    subdevice.propagation_delay = *delay_accum;\n}", "    subdevice.propagation_delay = propagation_delay;\n}")]},
+    {"id": "c17-offset-plain-arith", "property": "C17", "expect": "C17.np|dc::write_dc_parameters",
+     "edits": [("src/dc.rs", "(now_nanos as i64).wrapping_sub(subdevice.dc_receive_time as i64);", "now_nanos as i64 - subdevice.dc_receive_time as i64;")]},
+    # ---------------- C18 ----------------
+    {"id": "c18-shift-unchecked", "property": "C18", "expect": "C18",
+     "edits": [("src/subdevice_group/mod.rs", "let sync0_shift = u64::from(u32::try_from(sync0_shift.as_nanos())?);", "let sync0_shift = sync0_shift.as_nanos() as u64;")]},
+    {"id": "c18-start-time-plain-add", "property": "C18", "expect": "C18.np|SubDeviceGroup::configure_dc_sync",
+     "edits": [("src/subdevice_group/mod.rs", "system_time.wrapping_add(first_pulse_delay) / sync0_period * sync0_period;", "(system_time + first_pulse_delay) / sync0_period * sync0_period;")]},
+    {"id": "c18-round-other-period", "property": "C18", "expect": "C18.cfg|register-value-table",
+     "edits": [("src/subdevice_group/mod.rs", "system_time.wrapping_add(first_pulse_delay) / sync0_period * sync0_period;", "system_time.wrapping_add(first_pulse_delay) / sync0_period * first_pulse_delay.max(1);")]},
+    {"id": "c18-sync1-always-on", "property": "C18", "expect": "C18.cfg|flags-per-mode",
+     "edits": [("src/subdevice_group/mod.rs", "            } else {\n                SYNC0_ACTIVATE | CYCLIC_OP_ENABLE\n            };", "            } else {\n                SYNC1_ACTIVATE | SYNC0_ACTIVATE | CYCLIC_OP_ENABLE\n            };")]},
+    {"id": "c18-no-reference-after-write", "property": "C18", "expect": "C18.cfg|no-reference",
+     "edits": [("src/subdevice_group/mod.rs", """        let Some(reference) = maindevice.dc_ref_address() else {
+            fmt::error!("No DC reference clock SubDevice present, unable to configure DC");
+
+            return Err(DistributedClockError::NoReference.into());
+        };
+
+        let DcConfiguration {""", """        let reference = maindevice.dc_ref_address().unwrap_or(0x1000);
+
+        let DcConfiguration {""")]},
+    {"id": "c18-wait-minus-shift", "property": "C18", "expect": "C18.cycle",
+     "edits": [("src/subdevice_group/mod.rs", "(self.dc_conf.sync0_period - cycle_start_offset) + self.dc_conf.sync0_shift;", "(self.dc_conf.sync0_period - cycle_start_offset).saturating_sub(self.dc_conf.sync0_shift);")]},
 ]
